@@ -77,11 +77,15 @@ func (r *Rng) Intn(n int) int {
 // Chance is true with probability num/den.
 func (r *Rng) Chance(num, den int) bool { return r.Intn(den) < num }
 
-// Fork derives an independent generator for case i.
+// Fork derives an independent generator for case i.  The index is hashed into
+// the state: splitmix64 streams whose states differ by a multiple of the
+// increment are shifted copies of each other, so a linear derivation would make
+// consecutive cases share most of their draws.
 func Fork(seed uint64, i uint64) *Rng {
-	r := NewRng(seed*0x2545f4914f6cdd1d + i*0x9e3779b97f4a7c15 + 0x1234567)
-	r.Next()
-	return r
+	t := NewRng(seed ^ ((i + 1) * 0xD1342543DE82EF95))
+	a := t.Next()
+	b := t.Next()
+	return NewRng(a ^ (b << 17) ^ (b >> 47) ^ (i * 0x2545f4914f6cdd1d))
 }
 
 // Pick returns one element of xs.
